@@ -185,7 +185,7 @@ type Sim struct {
 
 const (
 	maxTasks = 64
-	maxConns = 64
+	maxConns = 256
 )
 
 type event struct {
